@@ -4,6 +4,9 @@ import json, os, subprocess, sys
 ROOT = os.path.dirname(os.path.dirname(os.path.abspath(__file__)))
 
 CLAIMED = {
+ "C16": ("exploration", "property-based testing (proptest) with metamorphic stream oracles (chunking / call-sequence independence), history-based freshness invariants and deterministic-seeded distribution tests",
+         "Generated-input search: the seeded generator's output is compared across chunkings that cross several buffer refills at unaligned offsets, across repeated identical call sequences, across one-bit seed changes and for repetition over 1 MiB per seed kind; samplers are checked for RNS-consistent small signed values, |e| <= 21, uniform range and (on 2^20 draws per seed) for their distributions at p = 1e-9 with confirmation; histories of up to 50 encryptions and key generations (with the entropy hook removed) must never repeat a mask polynomial or stored seed, while identical explicit generator state must reproduce the mask, and seeded objects must expand identically twice and in an independently built context.",
+         "Trusted: blake3 crate only for the informational cross-check; freshness is asserted for N >= 16 (below that the public-key mask space 3^N admits honest birthday collisions).", "DESIGN.md §6 C16"),
  "C14": ("exploration", "property-based round-trip testing (proptest) over a zoo of 29 serializable object kinds with field-by-field equality, exact size / framing and cross-context oracles",
          "Generated-input search: objects of every serializable type are built through the public API in varied states (seeded or expanded, sizes 2..3, lower level, either representation, empty to 3x3x3 containers, random / empty / full / unordered term subsets) under parameter sets whose primes occupy 1..8 bytes. The announced size must equal the bytes written and the bytes consumed when the object sits between neighbours in one stream; the restored object must equal the original (its seed-expanded form; for the selected-terms format the first polynomial restricted to the chosen coefficients) in the same context and in one rebuilt from the serialized parameters; later operations must be bit-identical.",
          "Trusted: equality over all public fields and data words; expected term-restricted form computed with the library's NTT (C09).", "DESIGN.md §6 C14"),
